@@ -5,6 +5,7 @@
 -/
 import Rox.Props.C05
 import Rox.Lemmas.RoundTrip3
+import Rox.Lemmas.RoundTrip6
 import Rox.Lemmas.AttrEntity
 import Rox.Props.C03
 
@@ -93,5 +94,35 @@ theorem entity_reference_in_attribute_value (T : Tables) (txt : Bytes) (c c' : C
     out = .owned (Rox.Spec.attrLit p ++ Rox.Spec.attrLit e.value.bytes ++ Rox.Spec.attrLit q) ∧
       c'.ld = ⟨0, 0⟩ :=
   Rox.Lemmas.normalizeAttribute_entity T txt c c' value out p q name e hd hval hp hq hv hcr hfind h
+
+/-- **A reference inside a run of character data: the replacement text merges with its neighbours**
+(every abstract document `<n as> pre (t1 v t2) post </n>` of the class `Spec.Canon.ok`, any shape;
+`t1`, `v`, `t2` plain strings, each possibly empty, `v` without an apostrophe): the document with the
+middle part `v` of the run moved into the replacement text of an internal general entity,
+
+    <!DOCTYPE n [<!ENTITY e 'V'>]><n as>PRE T1&e;T2 POST</n>
+
+parses (with `allow_dtd = true`) to exactly the tree of the inline document — the run is ONE text
+node whose value is `t1 ++ v ++ t2` (also when `v`, `t1` or `t2` is empty). -/
+theorem entity_text_merges_with_neighbours (opt : Opt) (hdtd : opt.allowDtd = true)
+    (n : Bytes) (as : List (Bytes × Bytes)) (pre : List Rox.Spec.Canon.XNode) (t1 v t2 : Bytes)
+    (post : List Rox.Spec.Canon.XNode)
+    (hx : Rox.Spec.Canon.hoistTOk n as pre t1 v t2 post = true)
+    (hlim : Rox.Spec.Canon.count (Rox.Spec.Canon.inlineT n as pre t1 v t2 post) + 1 ≤ opt.nodesLimit)
+    (hl32 : opt.nodesLimit ≤ 4294967295)
+    (hattrs : Rox.Lemmas.attrCount (Rox.Spec.Canon.inlineT n as pre t1 v t2 post) < 4294967295) :
+    ∃ dh di, parse Generated.tables (Rox.Spec.Canon.hoistT n as pre t1 v t2 post) opt = .ok dh ∧
+      parse Generated.tables (Rox.Spec.Canon.render (Rox.Spec.Canon.inlineT n as pre t1 v t2 post)) opt = .ok di ∧
+      dh.nodes.toList.map (Rox.Spec.Canon.view dh) = di.nodes.toList.map (Rox.Spec.Canon.view di) := by
+  have hok : Rox.Spec.Canon.ok (Rox.Spec.Canon.inlineT n as pre t1 v t2 post) = true := by
+    unfold Rox.Spec.Canon.hoistTOk at hx
+    simp only [Bool.and_eq_true] at hx
+    exact hx.1
+  obtain ⟨dh, ph, vh⟩ := Rox.Lemmas.parse_hoistT Generated.tables C01.generated_tables_ok
+    C03.generated_tables_canon generated_tables_canon3 opt hdtd n as pre t1 v t2 post hx hlim hl32 hattrs
+  obtain ⟨di, pi, vi⟩ := C03.tree_mirrors_document n as (pre ++ [Rox.Spec.Canon.XNode.text (t1 ++ v ++ t2)] ++ post)
+    (by simpa [Rox.Spec.Canon.inlineT] using hok) opt (by simpa [Rox.Spec.Canon.inlineT] using hlim) hl32
+    (by simpa [Rox.Spec.Canon.inlineT] using hattrs)
+  exact ⟨dh, di, ph, by simpa [Rox.Spec.Canon.inlineT] using pi, by rw [vh, vi]; rfl⟩
 
 end Rox.Props.C07
